@@ -64,6 +64,20 @@ def gen(ctx):
                 size = 300
             cases.append(Case(size, driver=driver, workers=rng.choice([1, 4]), bs=bs,
                               plan=[("clamp", 4, cap, "copy_file_range", 0, "{dst}")], label="kernel request cap"))
+    # "whenever xcp exits 0": also when a data call FAILED on the way — exit 0 then still promises identical bytes
+    # (the failure must surface in the status, through whichever route the driver reports it: join result or the
+    # update channel, with or without a progress bar)
+    EIO, ENOSPC, ENOSYS = 5, 28, 38
+    for driver in ("parfile", "parblock"):
+        for bs in (B, "noprogress"):
+            for nth in (1, 2, 3):
+                cases.append(Case(6 * B + 100, driver=driver, workers=rng.choice([1, 2, 4]), bs=bs, reflink="never",
+                                  plan=[("fail", rng.choice([EIO, ENOSPC]), 0, "copy_file_range", nth, "{dst}")], label="failing kernel copy"))
+            cases.append(Case(6 * B + 100, driver=driver, workers=2, bs=bs, reflink="never",
+                              plan=[("fail", ENOSYS, 0, "copy_file_range", 0, "{dst}"), ("fail", EIO, 0, rng.choice(["pwrite64", "write"]), 2, "{dst}")],
+                              label="failing user-space write"))
+            cases.append(Case(64 * B, data=[(0, B), (20 * B, 24 * B), (60 * B, 64 * B)], driver=driver, workers=2, bs=bs, reflink="never",
+                              plan=[("fail", EIO, 0, "copy_file_range", 2, "{dst}")], label="failing kernel copy, sparse source"))
     if not quick:
         for _ in range(1500):
             bs = rng.choice(bss)
@@ -94,6 +108,7 @@ def run(ctx, out):
     out.rule = ("single regular file per case: size x block size boundary grid (0,1,k*bs-1,k*bs,k*bs+1), bs in "
                 "{1,2,3,7,512,4095,4096,4097,1MB,usize::MAX via --no-progress}, dense and sparse layouts (leading/trailing/"
                 "interleaved/empty, >32 extents), prior destination absent/shorter/longer/same, both drivers, workers "
-                "1..16, reflink auto/never, plus scaled kernel request caps; non-trivial = non-empty file with >=2 "
+                "1..16, reflink auto/never, plus scaled kernel request caps and runs in which one data call fails (EIO / ENOSPC at the "
+                "n-th kernel copy or user-space write, with and without --no-progress): exit 0 still means identical; non-trivial = non-empty file with >=2 "
                 "transfers, or sparse, or overwriting, or a capped kernel; distinct = distinct case tuple")
     datapath.run_cases(ctx, out, gen(ctx), "C01", oracle, nontrivial)
